@@ -25,7 +25,7 @@ POLY = "POLY"
 MIXED = "MIXED"
 Deg = Union[Fraction, str, None]
 
-LINEAR = {"tile", "reshape", "squeeze", "transpose", "sum", "float", "to_memory_order", "diag", "array", "asarray", "copy", "expand_dims",
+LINEAR = {"tile", "reshape", "squeeze", "transpose", "moveaxis", "swapaxes", "sum", "float", "to_memory_order", "diag", "array", "asarray", "copy", "expand_dims",
           "flatten", "ravel", "cumsum", "atleast_1d", "atleast_2d", "real", "conj", "mean", "asfortranarray", "ascontiguousarray",
           "abs", "fabs", "absolute", "negative", "trace", "flip", "hstack", "vstack", "concatenate", "stack", "cast", "item", "double",
           "full", "to_tensor", "tensor", "tenmat", "to_tenmat", "to_sptenmat", "toarray", "todense", "permute", "astype", "nansum",
